@@ -6,7 +6,8 @@ _DEC_NOTE = ("Trusted: z3/cvc5; pyvc's encoding of the Python subset (ints mathe
              "sequences as array+length); the buffered-stream contract (read(k) = min(k, remaining) bytes, files and pipes alike), latin-1 codec, "
              "decimal str.format; nonlinear facts only through separately proved lemmas; the sidecar's transcription of the formats. "
              "Not covered: see DESIGN.md per property; units not yet under contract are listed in the evidence.")
-_TX_NOTE = ("Trusted: CPython as the executor of the real methods; the opaque-part harness (every use of a part outside "
+_TX_NOTE = ("Deciding step: the real methods are executed by CPython on opaque (parametric) parts, so each obligation holds for every operand; "
+            "no SMT back end is involved and the step to all programs is a structural induction stated on paper - category `other`, not `proof`. Trusted: CPython as the executor of the real methods; the opaque-part harness (every use of a part outside "
             "basic09_text/visit/is_str_expr/isinstance-against-base/truthiness is trapped, so a per-class result holds for every part); the "
             "structural-induction principle over finite ASTs (paper, DESIGN 6.3); the sidecar's expected templates (BASIC09 syntax, Color BASIC rules). "
             "Not an interpreter-level equivalence: numeric semantics of the two BASICs are out of scope (DESIGN section 5).")
@@ -18,7 +19,8 @@ CLAIMED = {
                 level_note=_TX_NOTE, technique="contract-based verification: class contracts checked by symbolic execution of the real methods on opaque parts; finite case analysis over operator pairs"),
     "C02": dict(level_text="Per-class visit/emission contracts for all control statements, FOR/NEXT pairing invariant of the bare-NEXT patcher, semantics of the "
                 "emitted IF / LOOP-EXITIF forms for every valuation of the conditions (0..3 ELSE IF arms), line and statement sequencing through convert() on "
-                "injected ASTs with opaque statements, for all option combinations.",
+                "injected ASTs with opaque statements, for all option combinations; the real IF rules and visitors on every form x arm kind (bare line, GOTO, GOSUB, "
+                "mixed): jumps as written, no stray line definitions, BOOLEAN condition in every form.",
                 level_note=_TX_NOTE, technique="contract-based verification: class and pass contracts checked by executing the real code on opaque parts; structured-semantics evaluation of emitted templates"),
     "C03": dict(level_text="Per-function facts the property rests on: DIM bound+1 / prefix / sizes / fill loops covering 0..bound (class contract), `base 0` in the "
                 "prologue, initialisation coverage of the variable pass, DATA item forms and order (real grammar rule + visitor), the empty-item flag accumulating over "
@@ -48,11 +50,13 @@ CLAIMED = {
                 technique="contract-based verification: grammar boundary obligations + finite case analysis over statement forms through the real parser"),
     "C09": dict(level_text="Truncation rule on every accepted name (all 1-2 character names, representative longer ones), arr_ prefix for arrays in every "
                 "position incl. implicit and source DIMs, generated identifiers disjoint from user identifiers (scan of every BasicVar(<constant>) site), "
-                "identifier-capable terminals of the grammar are exactly var/str_var plus content terminals.",
+                "identifier-capable terminals of the grammar are exactly var/str_var plus content terminals; reserved value names (ERNO) denote the same "
+                "identifier in every position or are refused; the variable initialiser assigns user variables only.",
                 level_note=_TX_NOTE, technique="contract-based verification: naming contracts on the real visitors and classes; finite enumeration of the name space (bounded part labelled)"),
     "C10": dict(level_text="Class contract of BasicDimStatement (bound+1, sizes per name / default, each name once), step contracts of SetDimStringStorage / "
                 "GetDimmedArrays / DeclareImplicitArrays / StrVarAllocator, and Used$ <= Sized$ plus single declaration checked on convert() output for a "
-                "string or array in each of 16 syntactic positions x {32, 80} x initialize_vars.",
+                "string or array in each of 16 syntactic positions x {32, 80} x initialize_vars; inside the library a size-following string (string<<>>) is "
+                "only handed to size-following parameters.",
                 level_note=_TX_NOTE, technique="contract-based verification: class and pass step contracts; per-position obligations through the real convert()"),
     "C11": dict(level_text="Option footprints on an injected AST (opaque statements + one construct per option-sensitive aspect): for each option the on/off "
                 "difference is confined to its documented region for every one of the 16 settings of the other options; command line: 7 file stems x 16 flag sets x 3 "
@@ -60,7 +64,7 @@ CLAIMED = {
                 level_note=_TX_NOTE, technique="contract-based verification: frame (footprint) obligations of convert() checked on injected ASTs for all option combinations"),
     "C12": dict(level_text="Order-determinacy typing over coco/b09 (every iteration over a set-typed expression is under sorted() without a key or at a justified "
                 "order-free site), no-persistent-state frame (no memoisation, globals, mutated module containers, class-attribute writes, mutable defaults), decoders "
-                "without hidden inputs; bounded confirmations (6 hash seeds; A,B,A) listed separately.",
+                "without hidden inputs and without module-level mutable containers written, aliased or passed on inside functions; bounded confirmations (6 hash seeds; A,B,A) listed separately.",
                 level_note=_TX_NOTE + " Assumes the only seed-dependent behaviour of CPython visible to the code is set iteration order.",
                 technique="contract-based verification: static typing/frame obligations over the real source (ast), plus labelled bounded confirmations"),
     "C13": dict(level_text="Closure/order/multiplicity of the real ProcedureBank for every root of the real library at two string sizes, every RUN of every bundle "
@@ -77,7 +81,8 @@ CLAIMED = {
                 "statement forms: only documented refusals. Exceptions outside the documented set are violations unless in a recorded input class.",
                 level_note=_TX_NOTE + " parsimonious' matcher is trusted to terminate and to raise only ParseError.",
                 technique="contract-based verification: arity/key/conversion obligations over the real grammar and visitor; bounded mutation stand-in labelled"),
-    "C20": dict(level_text="The call sites bind operands to the helpers' parameters by name (proved against the real PARAM lines). The helper bodies themselves "
+    "C20": dict(level_text="The call sites bind operands to the helpers' parameters by name (checked against the real PARAM lines); the empty-item flag accumulates "
+                "over all DATA statements and READ/DATA are patched as the filter expects. The helper bodies themselves "
                 "are checked only by a BOUNDED stand-in: a concrete evaluator of the BASIC09 subset runs the real ecb.b09 text exhaustively over small domains "
                 "(INSTR: subjects<=5, patterns<=3 over 2 letters, start 1..7; STRING$: counts -2..255 at capacities 32 and 255; read filter: numeral spellings). "
                 "No BASIC09 interpreter or verifier exists in the sandbox.",
@@ -86,18 +91,32 @@ CLAIMED = {
     "C16": dict(level_text="Deductive proof, for all inputs and all loop iterations, that the real decoder functions (read from /repo on every run) "
                 "write exactly header + every pixel of a well-formed uncompressed file: per-function contracts, loop invariants over the "
                 "output array, callee contracts for getbit/pack/iotostr/strtoio/dump; obligations discharged by z3 (goal-directed instantiation, "
-                "cvc5 fallback). Currently under contract: HRS, uncompressed MGE (RGB and composite); other layouts are being added.",
+                "cvc5 fallback). Under contract: HRS, uncompressed MGE (RGB and composite palettes), raw CM3 lines (one/two pages, with/without "
+                "pattern block), MAX in the seven table-driven pixel modes, uncompressed VEF (three types, palette = six-bit colour code, pixel fields). "
+                "Not under contract: the two floating-point MAX artifact modes (-br/-rb) and PIX pixel positions (sizes only).",
                 level_note=_DEC_NOTE, technique="contract-based deductive verification: ast->VC generation with loop invariants, z3/cvc5"),
     "C17": dict(level_text="Deductive proof that for every valid encoding (defined by a ghost reference decoder that follows the format's token "
-                "semantics) the real decoder's output equals the rendering of the ghost image: run-length MGE, escape-coded RAT, VEF unsquash. "
-                "All run lengths, splits, literals equal to the escape byte are inside the quantifier.",
+                "semantics) the real decoder's output equals the rendering of the ghost image: run-length MGE, escape-coded RAT, CM3 line "
+                "compression (ghost line decoder over the bit stream), VEF unsquash (result_spec). All run lengths, splits, literals equal to "
+                "the escape byte are inside the quantifier.",
                 level_note=_DEC_NOTE, technique="contract-based deductive verification with ghost reference decoders, z3/cvc5"),
     "C18": dict(level_text="Deductive proof of header digits and exact sample count of the output for all inputs and all option values the validators "
-                "admit (HRS, MAX incl. derived height and Newsroom header, PIX, MGE, RAT), with skip handled as an offset into the same input.",
+                "admit (HRS, MAX incl. derived height and Newsroom header, PIX, MGE, RAT, CM3, VEF start: PNG size, bitmap length, palette size), "
+                "with skip handled as an offset into the same input.",
                 level_note=_DEC_NOTE, technique="contract-based deductive verification: ast->VC generation with loop invariants, z3/cvc5"),
     "C19": dict(level_text="Deductive proof, for every byte string, that each decoder terminates (variants for every while loop) and that a normal "
-                "return implies a complete image of the announced size; exceptional exits are enumerated by the VC generator (HRS, RAT, MGE, MAX, PIX, unsquash).",
+                "return implies a complete image of the announced size; exceptional exits are enumerated by the VC generator (HRS, RAT, MGE, MAX, "
+                "PIX, CM3, unsquash, VEF start). Damage the format can express (RAT overshoot, MGE terminator position, MAX short rows / bad first "
+                "byte / inconsistent length, PIX non-square, CM3 line count, VEF data length) is a loud exit.",
                 level_note=_DEC_NOTE, technique="contract-based deductive verification with exceptional postconditions and variants, z3/cvc5"),
 }
+
+for _k, _v in CLAIMED.items():
+    if _k in ("C16", "C17", "C18", "C19"):
+        _v["category"], _v["engine"] = "proof", "pyvc"
+    elif _k == "C20":
+        _v["category"], _v["engine"] = "exploration", "tx"
+    else:
+        _v["category"], _v["engine"] = "other", "tx"
 
 NOT_REACHED = "not reached yet by the contracts built so far (DESIGN.md section 8, fall-back rule); no other technique is substituted"
